@@ -21,8 +21,9 @@ RULE = (
 ASSUMPTIONS = [
     "coefficients are exactly 0 or have magnitude in [1e-3, 1e3]; nothing is asserted about "
     "equality in the band between the library's hash granularity (1e-6) and 1e-3",
-    "tolerance is operand-relative (1e-12 * product of operand norms) plus 1e-8 per reference "
-    "coefficient that is itself below 2e-8 (simplify may drop those)",
+    "tolerance is operand-relative (1e-12 * product of the operands' unmerged coefficient magnitudes) plus an allowance of "
+    "1e-8 per coefficient below 2e-8 in the RESULT of an operation (incl. the intermediate powers of x**k, the (-1)*b of a - b and "
+    "an explicit simplify()): the library drops such coefficients when it simplifies results; operands as written get no allowance",
 ]
 
 # relative accuracy demanded of the arithmetic (operand-relative); double rounding is ~1e-16 per operation
